@@ -155,7 +155,7 @@ STATES = {
     "default": {},
     "scalars": {"s": "hello", "i": 5, "f": 1.5},
     "bytes-digest": {"b": "YWJj", "ch": "pw"},
-    "secrets": {"sec": "sixteen-byte-key", "sub": {"c": "n", "deep": {"e": "deeper"}}},
+    "secrets": {"sec": "sixteen-byte-key", "sub": {"c": "n", "deep": {"e": "a deeper secret that is longer than the thirty-two byte key"}}},
     "containers": {"l": [1, 2], "d": {"k": 1}, "ud": {"a": [1]}, "any": {"x": [None]}},
     "items-1": {"items": [{"c": 1, "s": "i1"}]},
     "items-2": {"items": [{"c": 1, "s": "i1"}, {"c": 2}], "t": {"c": "tt"}},
